@@ -384,3 +384,234 @@ Proof.
   match goal with |- context[fold_left ?f (b_nodes b) (gacc ?c ?v ?m [] ?l ?a)] => destruct (Hnodes (b_nodes b) c v m l a) as [L1 E] end.
   exists L1. cbv zeta in E. rewrite E. unfold grouped in Hg. rewrite Hg. unfold amdoc, AM_of, TM_bus. rewrite fold_left_app. cbn. reflexivity.
 Qed.
+
+(* ---------------- the export order is a permutation of the signals ---------------- *)
+Section SXFacts.
+  Variables (es : list enum_def) (names : list string) (m : message).
+  Hypothesis Hmm : mmessage es names (strip_msg m).
+  Let sigs := m_signals m.
+
+  Lemma SX_in : forall s, In s (SX m) -> In s sigs.
+  Proof.
+    intros s H. unfold SX in H. apply in_flat_map in H. destruct H as [t [Ht Hs]]. apply filter_In in Ht. destruct Ht as [Ht _].
+    destruct Hs as [<-|Hs]; [assumption|]. destruct (is_muxb t); [|destruct Hs].
+    unfold walk_of in Hs. apply in_flat_map in Hs. destruct Hs as [id [_ Hs]]. apply filter_In in Hs. destruct Hs as [Hs _].
+    unfold children in Hs. apply Proofs.In_sort_by in Hs. apply filter_In in Hs. tauto.
+  Qed.
+
+  Lemma SX_strip : forall mx, In mx sigs -> is_muxb mx = true -> S0 (strip_msg m) (strip_sig mx) = map strip_sig (SX m).
+  Proof.
+    intros mx Hmx Hm. unfold S0, SX. cbn [m_signals strip_msg]. rewrite filter_map_comm. change (fun x => is_topb (strip_sig x)) with is_topb.
+    assert (G : forall l, (forall t, In t l -> In t sigs) ->
+              flat_map (fun t => t :: (if is_muxb t then walk_kids (strip_msg m) (strip_sig mx) else [])) (map strip_sig l)
+              = map strip_sig (flat_map (fun t => t :: (if is_muxb t then walk_of (m_signals m) t else [])) l)).
+    { induction l as [|t r IH]; intros Hl; [reflexivity|]. cbn [map flat_map]. rewrite map_app, IH by (intros x Hx; apply Hl; right; assumption).
+      cbn [map app]. f_equal. f_equal. change (is_muxb (strip_sig t)) with (is_muxb t). destruct (is_muxb t) eqn:E; [|reflexivity].
+      assert (t = mx) by (apply (mux_unique es names m Hmm); try assumption; apply Hl; left; reflexivity). subst t.
+      unfold walk_kids, walk_of. cbn [m_signals strip_msg s_gcount strip_sig]. rewrite children_strip, map_flat_map.
+      apply flat_map_ext_in_simple. intros id _. rewrite filter_map_comm. reflexivity. }
+    apply G. intros t Ht. apply filter_In in Ht. tauto.
+  Qed.
+
+  Lemma SX_perm : Permutation sigs (SX m).
+  Proof.
+    pose proof (ids_nodup es names m Hmm) as Hids. assert (Hnd : NoDup sigs) by (eapply NoDup_map_inv; exact Hids).
+    destruct (existsb is_muxb sigs) eqn:Ex.
+    - apply existsb_exists in Ex. destruct Ex as [mx [Hmx Hm]].
+      pose proof (S0_perm es (strip_msg m) (strip_sig mx) names Hmm (in_map strip_sig _ _ Hmx) Hm) as HP. cbn [m_signals strip_msg] in HP.
+      rewrite (SX_strip mx Hmx Hm) in HP.
+      apply NoDup_Permutation; [assumption| |].
+      + assert (Hn2 : NoDup (map strip_sig (SX m))).
+        { eapply Permutation_NoDup; [exact HP|]. apply (NoDup_map_inv s_id). rewrite map_map. exact Hids. }
+        eapply NoDup_map_inv. exact Hn2.
+      + intros s. split; [|apply SX_in].
+        intros Hs. assert (Hin : In (strip_sig s) (map strip_sig (SX m))) by (eapply Permutation_in; [exact HP|apply in_map; assumption]).
+        apply in_map_iff in Hin. destruct Hin as [s2 [E Hs2]].
+        assert (s2 = s) by (apply (NoDup_map_inj s_id sigs); [assumption|apply SX_in; assumption|assumption|apply (f_equal s_id) in E; exact E]).
+        subst. assumption.
+    - assert (Hnm : forall s, In s sigs -> is_muxb s = false).
+      { intros s Hs. destruct (is_muxb s) eqn:E; [|reflexivity]. assert (existsb is_muxb sigs = true) by (apply existsb_exists; eauto). congruence. }
+      assert (Hall : filter is_topb sigs = sigs).
+      { apply filter_all. intros s Hs. destruct (is_topb s) eqn:Et; [reflexivity|]. exfalso.
+        destruct (child_strip es names m Hmm s Hs Et) as [mx [Hmx [_ [Hm _]]]]. rewrite (Hnm mx Hmx) in Hm. discriminate. }
+      unfold SX. fold sigs. rewrite Hall.
+      assert (G : forall l, (forall s, In s l -> is_muxb s = false) -> flat_map (fun t => t :: (if is_muxb t then walk_of sigs t else [])) l = l).
+      { induction l as [|t r IH]; intros Hl; [reflexivity|]. cbn [flat_map]. rewrite (Hl t (or_introl eq_refl)), IH by (intros x Hx; apply Hl; right; assumption). reflexivity. }
+      rewrite G by assumption. apply Permutation_refl.
+  Qed.
+
+  Lemma SX_names : NoDup (map (fun s => clear (s_name s)) (SX m)).
+  Proof. eapply Permutation_NoDup; [apply Permutation_map; exact SX_perm|]. apply (names_nodup es names m Hmm). Qed.
+End SXFacts.
+
+(* ---------------- the attribute layer, signals located by name ---------------- *)
+Definition upd1 (s : signal) (sg : list signal) : list signal :=
+  map (fun x => if String.eqb (s_name x) (clear (s_name s)) then fin_sig s x else x) sg.
+Definition upd_sigs (l : list signal) (sg : list signal) : list signal := fold_left (fun g s => upd1 s g) l sg.
+
+Lemma app_sig_name : forall a s, s_name (app_sig a s) = s_name s.
+Proof. intros a s. unfold app_sig. destruct (special_of _) as [[]|]; try destruct (aa_val a); reflexivity. Qed.
+Lemma fin_sig_name : forall s s', s_name (fin_sig s s') = s_name s'.
+Proof.
+  intros s s'. unfold fin_sig. generalize (sort_attrs (s_attrs s) ++ wk_sig s). intros l. revert s'.
+  induction l as [|a r IH]; intros s'; cbn [fold_left]; [reflexivity|]. rewrite IH. apply app_sig_name.
+Qed.
+
+Lemma upd1_names : forall s sg, map s_name (upd1 s sg) = map s_name sg.
+Proof. intros s sg. unfold upd1. rewrite map_map. apply map_ext. intros x. destruct (String.eqb _ _); [apply fin_sig_name|reflexivity]. Qed.
+Lemma upd1_ids : forall s sg, map s_id (upd1 s sg) = map s_id sg.
+Proof. intros s sg. unfold upd1. rewrite map_map. apply map_ext. intros x. destruct (String.eqb _ _); [apply fin_sig_id|reflexivity]. Qed.
+
+Lemma upd1_zip : forall s spre s' spost, NoDup (map s_name (spre ++ s' :: spost)) -> s_name s' = clear (s_name s) ->
+  spre ++ fin_sig s s' :: spost = upd1 s (spre ++ s' :: spost).
+Proof.
+  intros s spre s' spost Hnd Hn. unfold upd1. rewrite map_app. cbn [map]. rewrite Hn, String.eqb_refl.
+  rewrite map_app in Hnd. cbn [map] in Hnd. pose proof (NoDup_remove_2 _ _ _ Hnd) as Hni.
+  assert (Hid : forall l, (forall x, In x l -> s_name x <> clear (s_name s)) ->
+            map (fun x => if String.eqb (s_name x) (clear (s_name s)) then fin_sig s x else x) l = l).
+  { induction l as [|x r IH]; intros Hl; [reflexivity|]. cbn [map].
+    rewrite IH by (intros y Hy; apply Hl; right; assumption).
+    destruct (String.eqb (s_name x) (clear_spaces (s_name s))) eqn:E; [|reflexivity].
+    apply String.eqb_eq in E. exfalso. apply (Hl x (or_introl eq_refl)). exact E. }
+  rewrite !Hid; [reflexivity| |].
+  - intros x Hx Heq. apply Hni. apply in_or_app. right. rewrite Hn, <- Heq. apply in_map. assumption.
+  - intros x Hx Heq. apply Hni. apply in_or_app. left. rewrite Hn, <- Heq. apply in_map. assumption.
+Qed.
+
+Lemma fold_sigs_n : forall amap sm msgid l cur pre m' post,
+  (forall t, In t (flat_map (T_sig msgid) l) -> t_ok amap t) ->
+  b_messages cur = pre ++ m' :: post ->
+  NoDup (map s_id (m_signals m')) -> NoDup (map s_name (m_signals m')) ->
+  (forall s, In s l -> exists s', In s' (m_signals m') /\ s_name s' = clear (s_name s) /\
+                                  lookup key_eqb (msgid, clear (s_name s)) sm = Some (length pre, s_id s')) ->
+  fold_left (istep amap sm) (avs (flat_map (T_sig msgid) l)) (Ok cur)
+  = Ok (set_b_messages cur (pre ++ set_m_signals m' (upd_sigs l (m_signals m')) :: post)).
+Proof.
+  intros amap sm msgid l. induction l as [|s r IH]; intros cur pre m' post Hok Hn Hids Hnms Hl.
+  - cbn [flat_map avs map fold_left upd_sigs]. replace (set_m_signals m' (m_signals m')) with m' by (destruct m'; reflexivity).
+    rewrite <- Hn. destruct cur; reflexivity.
+  - destruct (Hl s (or_introl eq_refl)) as [s' [Hs' [Hnm Hlk]]].
+    apply in_split in Hs'. destruct Hs' as [spre [spost Hsp]].
+    cbn [flat_map upd_sigs fold_left]. rewrite avs_app, fold_left_app.
+    change (T_sig msgid s) with (map (mktasg OSignal EmptyString msgid (clear (s_name s))) (sort_attrs (s_attrs s) ++ wk_sig s)).
+    rewrite (fold_sig amap sm msgid (clear (s_name s)) _ cur pre m' post spre s' spost).
+    + fold (fin_sig s s'). rewrite (upd1_zip s spre s' spost) by (try assumption; rewrite <- Hsp; assumption). rewrite <- Hsp.
+      rewrite (IH _ pre (set_m_signals m' (upd1 s (m_signals m'))) post).
+      * destruct m', cur; reflexivity.
+      * intros t Ht. apply Hok. cbn [flat_map]. apply in_or_app. right. assumption.
+      * reflexivity.
+      * cbn [m_signals set_m_signals]. rewrite upd1_ids. assumption.
+      * cbn [m_signals set_m_signals]. rewrite upd1_names. assumption.
+      * intros s2 Hs2. destruct (Hl s2 (or_intror Hs2)) as [x [Hx [Hxn Hxl]]]. cbn [m_signals set_m_signals].
+        exists (if String.eqb (s_name x) (clear (s_name s)) then fin_sig s x else x). split.
+        -- unfold upd1. apply in_map_iff. exists x. auto.
+        -- destruct (String.eqb (s_name x) (clear (s_name s))); [rewrite fin_sig_name, fin_sig_id|]; auto.
+    + intros a Ha. assert (Ht : t_ok amap (mktasg OSignal EmptyString msgid (clear (s_name s)) a)).
+      { apply Hok. cbn [flat_map]. apply in_or_app. left. unfold T_sig. apply in_map. assumption. }
+      destruct Ht as [H1 H2]. split; assumption.
+    + assumption.
+    + assumption.
+    + assumption.
+    + intros x Hx Heq. rewrite Hsp, map_app in Hids. cbn [map] in Hids. apply NoDup_remove_2 in Hids. apply Hids.
+      apply in_or_app. left. rewrite <- Heq. apply in_map. assumption.
+Qed.
+
+(* ---------------- generic composition over messages and nodes ---------------- *)
+Section GenFold.
+  Variables (amap : list (string * attr_def)) (sm : list (key * (nat * Z))) (b : bus).
+  Variable Tm : message -> list tasg.
+  Variable fm : message -> message -> message.
+  Variable R : nat -> message -> message -> Prop.
+  Hypothesis Hone : forall m m' cur pre post,
+    (forall t, In t (Tm m) -> t_ok amap t) -> b_messages cur = pre ++ m' :: post ->
+    (forall x, In x pre -> m_canid x <> m_canid m') -> R (length pre) m m' ->
+    fold_left (istep amap sm) (avs (Tm m)) (Ok cur) = Ok (set_b_messages cur (pre ++ fm m m' :: post)).
+  Hypothesis Hcan : forall m m', m_canid (fm m m') = m_canid m'.
+
+  Fixpoint Rs (p : nat) (l l' : list message) : Prop :=
+    match l, l' with
+    | [], [] => True
+    | m :: r, m' :: r' => R p m m' /\ Rs (S p) r r'
+    | _, _ => False
+    end.
+
+  Lemma Rs_app : forall a c p l', Rs p (a ++ c) l' ->
+    exists a' c', l' = a' ++ c' /\ length a' = length a /\ Rs p a a' /\ Rs (p + length a) c c'.
+  Proof.
+    induction a as [|m r IH]; intros c p l' H; cbn [app] in H.
+    - exists [], l'. cbn. rewrite Nat.add_0_r. auto.
+    - destruct l' as [|m' r']; [destruct H|]. cbn [Rs] in H. destruct H as [H1 H4].
+      destruct (IH c (S p) r' H4) as [a' [c' [E1 [E2 [E3 E4]]]]]. exists (m' :: a'), c'. subst r'. cbn [app length Rs].
+      rewrite E2. replace (p + S (length r))%nat with (S p + length r)%nat by lia. auto 10.
+  Qed.
+
+  Lemma zipf_fm_canids : forall l l', map m_canid (zipf fm l l') = map m_canid l'.
+  Proof. induction l as [|x r IH]; intros [|y r']; cbn [zipf map]; try reflexivity. rewrite IH, Hcan. reflexivity. Qed.
+
+  Lemma gen_msgs : forall l l' cur pre post,
+    (forall t, In t (flat_map Tm l) -> t_ok amap t) ->
+    b_messages cur = pre ++ l' ++ post -> NoDup (map m_canid (pre ++ l' ++ post)) ->
+    Rs (length pre) l l' ->
+    fold_left (istep amap sm) (avs (flat_map Tm l)) (Ok cur) = Ok (set_b_messages cur (pre ++ zipf fm l l' ++ post)).
+  Proof.
+    induction l as [|m r IH]; intros l' cur pre post Hok Hn Hnd HR.
+    - destruct l'; [|destruct HR]. cbn [flat_map avs map fold_left zipf]. rewrite <- Hn. destruct cur; reflexivity.
+    - destruct l' as [|m' r']; [destruct HR|]. cbn [Rs] in HR. destruct HR as [H1 H4].
+      cbn [flat_map zipf]. rewrite avs_app, fold_left_app.
+      rewrite (Hone m m' cur pre (r' ++ post)); try assumption.
+      + rewrite (IH r' _ (pre ++ [fm m m']) post).
+        * rewrite <- app_assoc. destruct cur; reflexivity.
+        * intros t Ht. apply Hok. cbn [flat_map]. apply in_or_app. right. assumption.
+        * cbn [b_messages set_b_messages]. rewrite <- app_assoc. reflexivity.
+        * rewrite <- app_assoc. cbn [app] in *. rewrite !map_app in *. cbn [map] in *. rewrite Hcan. assumption.
+        * rewrite app_length. cbn [length]. replace (length pre + 1)%nat with (S (length pre)) by lia. assumption.
+      + intros t Ht. apply Hok. cbn [flat_map]. apply in_or_app. left. assumption.
+      + intros x Hx Heq. rewrite map_app in Hnd. cbn [app map] in Hnd. apply NoDup_remove_2 in Hnd. apply Hnd.
+        apply in_or_app. left. rewrite <- Heq. apply in_map. assumption.
+  Qed.
+
+  Definition Tn (n : node) : list tasg :=
+    map (mktasg ONode (clear (n_name n)) 0 EmptyString) (sort_attrs (n_attrs n))
+    ++ flat_map Tm (filter (fun m => String.eqb (m_sender m) (n_name n)) (b_messages b)).
+
+  Lemma gen_nodes : forall ns ns' cur npre npost mpre l' mpost,
+    (forall t, In t (flat_map Tn ns) -> t_ok amap t) ->
+    b_nodes cur = npre ++ ns' ++ npost -> Forall2 (fun n n' => n_name n' = clear (n_name n)) ns ns' ->
+    NoDup (map n_name (npre ++ ns' ++ npost)) -> (forall n, In n ns -> clear (n_name n) <> dummy_node) ->
+    b_messages cur = mpre ++ l' ++ mpost -> NoDup (map m_canid (mpre ++ l' ++ mpost)) ->
+    Rs (length mpre) (flat_map (Fn b) ns) l' ->
+    fold_left (istep amap sm) (avs (flat_map Tn ns)) (Ok cur)
+    = Ok (set_b_messages (set_b_nodes cur (npre ++ zipf fin_node ns ns' ++ npost))
+                         (mpre ++ zipf fm (flat_map (Fn b) ns) l' ++ mpost)).
+  Proof.
+    induction ns as [|n r IH]; intros ns' cur npre npost mpre l' mpost Hok Hn HF Hnd Hdm Hm Hcd HR.
+    - inversion HF; subst. cbn [flat_map] in HR. destruct l'; [|destruct HR].
+      cbn [flat_map avs map fold_left zipf]. rewrite <- Hn, <- Hm. destruct cur; reflexivity.
+    - inversion HF as [|? n' ? r' Hnm HF']; subst. cbn [flat_map zipf]. cbn [flat_map] in HR.
+      destruct (Rs_app _ _ _ _ HR) as [a' [b' [-> [Hla [HRa HRb]]]]].
+      unfold Tn at 1. rewrite !avs_app, !fold_left_app.
+      rewrite (fold_node amap sm (clear (n_name n)) _ cur npre n' (r' ++ npost)); try assumption.
+      2:{ intros a Ha. assert (Ht : t_ok amap (mktasg ONode (clear (n_name n)) 0 EmptyString a)).
+          { apply Hok. cbn [flat_map]. apply in_or_app. left. unfold Tn. apply in_or_app. left. apply in_map. assumption. }
+          destruct Ht as [H1 H2]. split; assumption. }
+      2:{ apply Hdm. left. reflexivity. }
+      2:{ intros x Hx Heq. rewrite map_app in Hnd. cbn [app map] in Hnd. apply NoDup_remove_2 in Hnd. apply Hnd.
+          apply in_or_app. left. rewrite Hnm, <- Heq. apply in_map. assumption. }
+      fold (fin_node n n').
+      rewrite (gen_msgs (Fn b n) a' _ mpre (b' ++ mpost)).
+      2:{ intros t Ht. apply Hok. cbn [flat_map]. apply in_or_app. left. unfold Tn. apply in_or_app. right. assumption. }
+      2:{ cbn [b_messages set_b_nodes]. rewrite Hm, <- app_assoc. reflexivity. }
+      2:{ rewrite <- app_assoc in Hcd. assumption. }
+      2:{ assumption. }
+      rewrite (IH r' _ (npre ++ [fin_node n n']) npost (mpre ++ zipf fm (Fn b n) a') b' mpost).
+      + rewrite (zipf_app fm) by (symmetry; assumption). rewrite <- !app_assoc. destruct cur; reflexivity.
+      + intros t Ht. apply Hok. cbn [flat_map]. apply in_or_app. right. assumption.
+      + cbn [b_nodes set_b_nodes set_b_messages]. rewrite <- app_assoc. reflexivity.
+      + assumption.
+      + rewrite <- app_assoc. cbn [app] in *. rewrite !map_app in *. cbn [map] in *. rewrite fin_node_name. assumption.
+      + intros x Hx. apply Hdm. right. assumption.
+      + cbn [b_messages set_b_messages]. rewrite <- !app_assoc. reflexivity.
+      + rewrite <- !app_assoc in *. rewrite !map_app in *. rewrite zipf_fm_canids. assumption.
+      + rewrite app_length, zipf_length, Hla. assumption.
+  Qed.
+End GenFold.
